@@ -66,26 +66,36 @@ def model_consts(ctx, lut):
     return {"LUT_CONSTS": consts, "LUT_DEC16": dec16}
 
 
+LUT_ACTIONS = {"from_linear_int", "from_linear_int_f64", "from_linear_run", "into_linear_int", "float_curve", "start_curve", "form"}
+MC_PHASES = {"hdr8", "cls8", "code8", "hdr16", "seg16", "code16", "walk", "done"}
+RE_TAKEN = re.compile(r'^<<"TAKEN", "(\w+)", "(\w+)">>$')
+
+
 def model_run(ctx, env, stride16):
-    # vacuity control on a thinned instance with -coverage ...
-    r = tlc_mc(ctx, "MC_Lut", constants={"ClsStride": 64, "Stride8": 16, "Stride16": 4096, "Emit": "FALSE"}, tag="lut_model_cov",
-               workers=6, env=env)
-    zero = coverage_zero_actions(r.out_path, {"Lut", "MC_Lut"})
-    if zero:
-        raise ToolError("vacuity: actions never taken in MC_Lut: %s" % zero)
-    # ... and everything without
+    """One exhaustive run, without -coverage: TLC's cost-model construction inlines the whole operator call tree of this
+    specification and runs out of memory before the search starts. Vacuity is controlled by the TAKEN witness lines
+    instead: every action of Lut.tla leaves its own tag in `last`; every tag and every phase of MC_Lut must be seen."""
     r = tlc_mc(ctx, "MC_Lut", constants={"Stride16": stride16}, tag="lut_model", workers=6, coverage=False, env=env, timeout=3000)
-    fails, notes = [], []
+    fails, notes, tags, phases = [], [], set(), set()
     for line in open(r.out_path):
         line = line.rstrip("\n")
         m = RE_MCFAIL.match(line)
         if m:
             fails.append((m.group(1), m.group(2), int(m.group(3)), m.group(4)))
-        elif line.startswith('<<"MCFAIL"') or line.startswith('<< "MCFAIL"'):
+            continue
+        if line.startswith('<<"MCFAIL"') or line.startswith('<< "MCFAIL"'):
             raise ToolError("unparsable MCFAIL line in %s: %s" % (r.out_path, line[:200]))
+        m = RE_TAKEN.match(line)
+        if m:
+            tags.add(m.group(1))
+            phases.add(m.group(2))
+            continue
         m = RE_NOTE.match(line)
         if m:
             notes.append(m.group(1))
+    if (LUT_ACTIONS - tags) or (MC_PHASES - phases):
+        raise ToolError("vacuity: actions of Lut.tla never taken in MC_Lut: %s; phases never reached: %s"
+                        % (sorted(LUT_ACTIONS - tags), sorted(MC_PHASES - phases)))
     return r, sorted(set(fails)), notes, extract_prints(r.out_path, "REPLAY")
 
 
@@ -206,18 +216,25 @@ def no_wrapped_rejects(ctx, tag):
 def judge(ctx, path, env, tag, flat_chunk, known_limit=40):
     flat, curves, fp, cp = split_recording(ctx, path, tag)
     rejected, accepted = [], 0
-    if flat:
-        deal(flat, fp, flat_chunk)
-        res = validate_trace(ctx, "TraceLut", fp, stateless=True, chunk_events=flat_chunk, env=env, tag=tag + ".flat")
-        rejected += res.rejected
-        accepted += res.events - len(res.rejected)
-    if curves:
+    # a TLC process costs 4-5 s before it judges its first event (start-up, JSON, JIT): as few chunks as there are jobs
+    jobs = max(2, (NCPU - 2) // 2)
+    def do_flat():
+        chunk = min(flat_chunk, max(200, -(-len(flat) // jobs)))
+        deal(flat, fp, chunk)
+        return validate_trace(ctx, "TraceLut", fp, stateless=True, chunk_events=chunk, env=env, tag=tag + ".flat", jobs=jobs)
+    def do_curves():
         with open(cp, "w") as f:
             f.writelines(curves)
-        # one chunk per reset group (a group is 150 .. 2500 events)
-        res = validate_trace(ctx, "TraceLut", cp, stateless=False, chunk_events=1, env=env, tag=tag + ".curves")
-        rejected += res.rejected
-        accepted += res.events - len(res.rejected)
+        # cut only in front of a reset (the harness opens a section of at most 121 points with a reset)
+        chunk = min(flat_chunk, max(100, len(curves) // jobs - 60))
+        return validate_trace(ctx, "TraceLut", cp, stateless=False, chunk_events=chunk, env=env, tag=tag + ".curves", jobs=jobs)
+    # the two validations run side by side, half of the cores each
+    with ThreadPoolExecutor(max_workers=2) as ex:
+        futs = ([ex.submit(do_flat)] if flat else []) + ([ex.submit(do_curves)] if curves else [])
+        for fu in futs:
+            res = fu.result()
+            rejected += res.rejected
+            accepted += res.events - len(res.rejected)
     no_wrapped_rejects(ctx, tag)
     ctx.cov["traces_validated_against_impl"] += accepted
     # many rejections of one kind are one finding: report one witness per (kind, encoding, api/type/direction, reason)
@@ -349,7 +366,7 @@ def run(ctx):
     tp = ctx.p("lut.ndjson")
     rb = run_bin(lut, ["--tier", ctx.tier, "--out", tp, "--hist", hist], env={"VERIF_SEED": ctx.seed, "VERIF_THREADS": 8}, timeout=3000)
     stats = json.loads((rb.stderr or "{}").strip().splitlines()[-1])
-    n_rej = judge(ctx, tp, env, "lut", 1500 if ctx.quick else 9000)
+    n_rej = judge(ctx, tp, env, "lut", 4000 if ctx.quick else 12000)
     ctx.cov["evaluations"] += int(stats.get("evaluations", 0))
     add_samples(ctx, tp, n=5, every=4099)
     ctx.cov["distinct_nontrivial"] = count_distinct(tp, lambda e: json.dumps([e.get(k) for k in ("ev", "enc", "api", "mode", "first", "last", "x", "mags", "k", "t", "dir", "what", "want")]), nontrivial)
